@@ -7,6 +7,7 @@ import (
 	"fmt"
 	"sort"
 	"strings"
+	"sync"
 
 	"github.com/spf13/afero"
 	admv1 "k8s.io/api/admissionregistration/v1"
@@ -254,6 +255,38 @@ type world struct {
 	calls  map[string]int // label -> count (summary)
 	others map[string]int
 	vcache map[string][2]bool
+	ccache map[string]string
+}
+
+// the certificate material of the initial cluster contents (the environment's):
+// generated once, from pool keys that the scenarios themselves never get.
+type initialMaterial struct {
+	ca0, other pair
+	leaf       map[string]pair
+}
+
+var (
+	matOnce sync.Once
+	mat     initialMaterial
+)
+
+const reservedKeys = 6
+
+func material() *initialMaterial {
+	matOnce.Do(func() {
+		ks := &keys{}
+		mat.ca0, mat.other = mkCA(ks, "Crossplane"), mkCA(ks, "Other")
+		mat.leaf = map[string]pair{
+			srvName:              mkLeaf(ks, mat.ca0, srvDNS, x509.ExtKeyUsageServerAuth),
+			srvName + "/foreign": mkLeaf(ks, mat.other, srvDNS, x509.ExtKeyUsageServerAuth),
+			cliName:              mkLeaf(ks, mat.ca0, cliDNS, x509.ExtKeyUsageClientAuth),
+			essName:              mkLeaf(ks, mat.ca0, essDNS, x509.ExtKeyUsageServerAuth),
+		}
+		if ks.next != reservedKeys {
+			panic("reservedKeys")
+		}
+	})
+	return &mat
 }
 
 func secret(name string, data map[string][]byte) *corev1.Secret {
@@ -261,7 +294,7 @@ func secret(name string, data map[string][]byte) *corev1.Secret {
 }
 
 func newWorld(scen string, in input, raw map[string]any, real bool) *world {
-	w := &world{in: in, raw: raw, scen: scen, real: real, ks: &keys{}, fired: map[int]bool{}, calls: map[string]int{}, others: map[string]int{}, vcache: map[string][2]bool{}}
+	w := &world{in: in, raw: raw, scen: scen, real: real, ks: &keys{next: reservedKeys}, fired: map[int]bool{}, calls: map[string]int{}, others: map[string]int{}, vcache: map[string][2]bool{}, ccache: map[string]string{}}
 	w.s = simapi.NewServer(scheme)
 	w.c = simapi.NewClient(w.s, "init")
 	w.fs = afero.NewMemMapFs()
@@ -278,8 +311,8 @@ func newWorld(scen string, in input, raw map[string]any, real bool) *world {
 // populate builds the initial cluster contents the scenario asks for.
 func (w *world) populate() {
 	in := w.in
-	ca0 := mkCA(w.ks, "Crossplane")
-	other := mkCA(w.ks, "Other")
+	mat := material()
+	ca0 := mat.ca0
 	switch in.CA {
 	case "empty":
 		w.s.Put(secret(caName, nil))
@@ -290,12 +323,11 @@ func (w *world) populate() {
 	case "nocert":
 		w.s.Put(secret(caName, map[string][]byte{"tls.key": ca0.key}))
 	}
-	leaf := func(name, st string, dns []string, usage x509.ExtKeyUsage) []byte {
-		iss := ca0
+	leaf := func(name, st string) []byte {
+		iss, p := ca0, mat.leaf[name]
 		if st == "foreign" {
-			iss = other
+			iss, p = mat.other, mat.leaf[name+"/foreign"]
 		}
-		p := mkLeaf(w.ks, iss, dns, usage)
 		all := map[string][]byte{"tls.crt": p.crt, "tls.key": p.key, "ca.crt": iss.crt}
 		pick := map[string][]string{"empty": {}, "crt": {"tls.crt"}, "key": {"tls.key"}, "partial": {"tls.key"}, "cacrt": {"ca.crt"},
 			"complete": {"tls.crt", "tls.key", "ca.crt"}, "foreign": {"tls.crt", "tls.key", "ca.crt"}}
@@ -310,9 +342,9 @@ func (w *world) populate() {
 		w.s.Put(secret(name, d))
 		return d["tls.crt"]
 	}
-	srvCrt := leaf(srvName, in.Srv, srvDNS, x509.ExtKeyUsageServerAuth)
-	leaf(cliName, in.Cli, cliDNS, x509.ExtKeyUsageClientAuth)
-	leaf(essName, in.Ess, essDNS, x509.ExtKeyUsageServerAuth)
+	srvCrt := leaf(srvName, in.Srv)
+	leaf(cliName, in.Cli)
+	leaf(essName, in.Ess)
 
 	bundle := func(st string) []byte {
 		if st == "current" && len(srvCrt) > 0 {
